@@ -133,7 +133,15 @@ syntax "ft_at" : tactic
 /-- closes `a.get k = b.get k` from an `Agree` hypothesis -/
 macro_rules | `(tactic| ft_at) => `(tactic| first
   | assumption
-  | (apply get_agree (by assumption); ft_mem))
+  | (apply get_agree (by assumption); ft_mem)
+  | exact C06T.agree_put_self _ _ _ _
+  | exact C06T.agree_del_self _ _ _
+  | (apply agree_put; ft_at)
+  | (apply agree_del; ft_at)
+  | (apply agree_setFresh; ft_at)
+  | (apply agree_setVal <;> ft_at)
+  | (apply agree_putList <;> ft_at)
+  | (apply agree_putSet <;> ft_at))
 /-- closes `Agree ks (X a) (X b)` for `X` built from the write primitives -/
 macro_rules | `(tactic| ft_agree) => `(tactic| first
   | assumption
